@@ -12,7 +12,8 @@ C14_CLAUSES = {'PressurePartsNonNegative', 'FrictionClosedForm',
                'GravityClosedForm', 'OneLossPerSpacerGridInStep',
                'PressureLedgerAdvance', 'TotalIsSumOfPartsAndRegions',
                'EachGridCountedExactlyOnce', 'ReportedTotalIsSumOfSteps',
-               'TotalEqualsClosedForm', 'SweepRuns'}
+               'TotalEqualsClosedForm', 'PressureTablePrintsTheLedger',
+               'SweepRuns'}
 C15_CLAUSES = {'PeakFoldConsistent', 'PeakCoolantIsRunningMaximum',
                'PeakDuctIsRunningMaximumPerDuct', 'PeakPinIsRunningMaximum',
                'PeakPinProfileIsThatOfPeakPin', 'ReportedPeakCoolant',
@@ -81,7 +82,11 @@ def record(args):
                     dassh, r, str(d), trk,
                     units=case.get('setup', {}).get('Units'))
                 tables_msg = list(tables.LAST_MISMATCH)
-            cfg, ev = ob.events(tables_ok)
+            ptab = None
+            if crash is None and opts.get('dptable'):
+                from . import tables
+                ptab = tables.pressure_table(dassh, r) or 'unreadable'
+            cfg, ev = ob.events(tables_ok, ptab)
             if crash:
                 ev.insert(len(ev) - 1, crash)
             totals = [float(a.pressure_drop) for a in r.assemblies]
@@ -92,7 +97,7 @@ def record(args):
             return {'label': label,
                     'cfg': {'nasm': 1, 'grids': [[]], 'blo': [[0, 0]],
                             'bhi': [[0, 0]], 'nslots': [1], 'npin': [0],
-                            'exact': 0},
+                            'exact': 0, 'gravity': 0},
                     'ev': [{'e': 'Crash', 'exc': type(e).__name__,
                             'msg': str(e)[:160]}], 'meta': {'planes': 0}}
     finally:
